@@ -45,12 +45,36 @@ def failure_edges(fn):
     return starts
 
 
+def failure_reaches_the_exit_status(F, rep, rule="C17.exit-status"):
+    """"... and exits with a failure status": the interpreter thread hands `main` the program's result (`Result<(), anyhow::Error>`, alone or inside
+    the payload it returns); main turns an Err into its own Err - and so into a non-zero exit - with `?`.  After a join of such a thread, every path to
+    main's Ok return passes through a `?` on a value of that type that comes out of the join: a path that skips it (`if !profiled { status? }`) prints
+    the trace and exits 0."""
+    m = F.fn("mscript::main")
+    if m is None:
+        raise AnchorMissing("mscript::main")
+    STATUS = "core::result::Result<(), anyhow::Error>"
+    okr = set(rules.ok_return_blocks(m))
+    joins = [c for c in m.calls() if mir.short(c.callee()).endswith("JoinHandle::join") and c.args and STATUS in m.locals[op_local(c.args[0])]]
+    rep.floor(rule + " joins of an interpreter thread in main", len(joins), 2)
+    for i, j in enumerate(joins):
+        der = m.derived([j.dst["l"]], through_call=lambda c, idx: True)
+        tries = [c for c in m.calls() if c.matches(rules.TRY_BRANCH) and c.args and op_local(c.args[0]) in der and m.locals[op_local(c.args[0])].strip() == STATUS]
+        blocks = {c.bb for c in tries}
+        leak = sorted(m.reachable(j.target, removed_blocks=blocks) & okr) if j.target is not None else [-1]
+        st = "ok" if tries and not leak else "violated"
+        rep.ob(rule, "main (join #%d): the program's result is propagated with `?` on every path to a successful exit" % i, st,
+               "" if st == "ok" else ("%d `?` on the thread's Result<(), Error>; main's Ok return is reachable from the join without one: a failed program - trace "
+                                      "printed - ends with exit status 0" % len(tries)), j.span, fn=m.path, key="%s|join#%d" % (rule, i))
+
+
 def run(ctx, rep):
     F = ctx.facts("default", ["bytecode", "compiler", "mscript-bin"])
     rep.explain("C17: dominator / no-call-after-failure rules on Function::run, the `call` handler and Program::execute; pass-through of "
                 "the assert position string; inventory of data-dependent panic sites on interpreter paths.")
     rep.assume("the rendered text of the trace is not decided; frames are identified by the push/pop calls")
 
+    failure_reaches_the_exit_status(F, rep)
     # ---- (b) Function::run ------------------------------------------------------------------------------------
     r = need(F, "bytecode::function::Function::run")
     ext = r.calls_to("bytecode::stack::Stack::extend")
